@@ -143,7 +143,10 @@ class MNode:
       raise Invalid(str(e)) from None
     # tags declared by Annotated[...] parameter annotations
     for pname, tags in getattr(self.fn, '_fsim_ann', {}).items():
-      self.tags.setdefault(pname, set()).update(tags)
+      if pname in (self.sv.va, self.sv.vk):
+        continue      # an annotation of *args / **kwargs tags no single argument
+      key = self.sv.index_of[pname] if pname in self.sv.po else pname
+      self.tags.setdefault(key, set()).update(tags)
     for name, value in ba.arguments.items():
       if name == self.sv.va:
         for j, v in enumerate(value):
